@@ -188,6 +188,21 @@ def gen_cases(seed, thorough):
                     mod = ([td] if tdloc == 'global-before' else []) + wrap_ns_path(blocks[0], path) + \
                         [D.enum('Between', ['A'])] + wrap_ns_path(blocks[1], path)
                     yield 'typedef-%s/reopened-namespace/template-in-block-%d/typedef-%s' % (tk, tblock + 1, tdloc), surround(mod)
+    # 3e. two aliases of one instantiation, the same spelling in two namespaces, and forward declarations next to a class
+    #     (template or not) of the same unqualified name
+    for tk in ('class', 'func', 'fwd'):
+        nm = 'Pair' if tk != 'func' else 'pairUp'
+
+        def tgt2(name, tk=tk):
+            tpl = header([0], pool)
+            return class_decl(tpl, name) if tk == 'class' else (func_decl(tpl, name) if tk == 'func' else D.fwd(name))
+        tds = [D.typedef(T('left::' + nm, t=[pool[0]]), 'AliasOne'), D.typedef(T('left::' + nm, t=[pool[0]]), 'AliasTwo'),
+               D.typedef(T('right::' + nm, t=[pool[0]]), 'RightSame'), D.typedef(T(nm, t=[pool[0]]), 'GlobalSame')]
+        yield 'typedef-%s/two-aliases-and-same-spelling-in-two-namespaces' % tk, surround(
+            tds[:2] + [D.ns('left', [tgt2(nm)]), tgt2(nm), D.ns('right', [tgt2(nm)])] + tds[2:])
+    yield 'fwd-next-to-class-of-that-name', surround([D.fwd('Shape', 1), class_decl(header([2], pool), 'Shape'), D.fwd('other::Pose'),
+                                                      D.cls('Pose', [D.ctor('Pose')]),
+                                                      D.ns('inner', [D.fwd('Pose'), D.cls('Pose', [D.ctor('Pose')]), D.fwd('Late', 0, 'Pose'), func_decl(header([1], pool), 'Late')])])
     # 3d. typedefs of a class template, a function template and a foreign template in one scope, in every order
     for depth in (0, 1):
         for perm in itertools.permutations(range(3)):
